@@ -66,7 +66,7 @@ P["C19"] = {
         {"name": "num", "pkgdir": "pkg", "harness": {"pkg": "harness/pkg"}, "entry": "VerifC19Num", "require_reach": ["C19:num-pair"],
          "quick": {"args": [1]}, "thorough": {"args": [6], "secondary": "z3,cvc5"}},
         {"name": "bool", "pkgdir": "pkg", "harness": {"pkg": "harness/pkg"}, "entry": "VerifC19Bool", "require_reach": ["C19:bool"], "thorough": {"secondary": "z3,cvc5"}},
-        {"name": "time", "pkgdir": "pkg", "harness": {"pkg": "harness/pkg"}, "entry": "VerifC19Time", "require_reach": ["C19:time"], "thorough": {"secondary": "z3,cvc5"}},
+        {"name": "time", "pkgdir": "pkg", "harness": {"pkg": "harness/pkg"}, "entry": "VerifC19Time", "require_reach": ["C19:time", "C19:time:one-monotonic", "C19:time:both-monotonic"], "thorough": {"secondary": "z3,cvc5"}},
     ]}
 P["C03"] = {
     "design_ref": "DESIGN.md §8 C03, Appendix B", "assumptions": TIERA_ASSUME,
@@ -340,6 +340,7 @@ P["C20"] = {
              dict(tierC("VerifC20Blob", "b_float", [], T, ["c20:blob-load-returned", "c20:blob-head-mutated"], "the same on template b_float's stream"),
                   extra_label_prefixes=["alloc-bounded:"], replay_each_in_own_process=True),
              dict(tierC("VerifC20SnapshotLinear", "s_shapes", [], QT, ["c20:snapshot-nodes-walked"], "GRL text part: for every node (333, every alternative of the expression grammar) of template s_shapes as built by the real parser, the node's snapshot is no longer than 32 + 4 per child + 6x its own identifier text + the snapshots of its direct children - by induction snapshots (computed by the listener for every node) stay linear in the text; CONCRETE enumeration of nodes executed from SSA, not solver-quantified"), no_native=False),
+             dict(tierC("VerifC20SnapshotCost", "s_deep", [], QT, ["c20:snapshot-cost-measured"], "GRL text part: computing the snapshot of each of 11 rules with 12-16 levels of every nesting construct (negation, parentheses, selectors, method / member chains, nested calls and selectors, deep sums) costs at most 600 SSA instructions per byte of rule text (measured: 11-27) - a node kind that evaluates a child's snapshot twice is exponential in the depth; CONCRETE inputs, cost counted by the executor (natively: time)"), replay_each_in_own_process=True),
              dict(salienceK(QT), name="salience-literal"),
              {"name": "c18-malformed", "pkgdir": "pkg", "harness": [["pkg", "harness/pkg"]], "entry": "VerifC18Malformed", "tiers": QT, "require_reach": ["c18:malformed-case"], "bounds": "24 JSON rule shapes through pkg.ParseRule"},
              {"name": "json-rule-text", "pkgdir": "pkg", "harness": [["pkg", "harness/pkg"]], "entry": "VerifC20JSONText", "tiers": QT, "require_reach": ["c20:json-text"],
